@@ -28,9 +28,4 @@ theorem tie_slot_in_range : SlotOk Nv.Gen.C14.normalizeSlotIndex := by
   all_goals (rename_i hc; simp only [BitVec.slt_iff_toInt_lt, BitVec.toInt_zero, Bool.not_eq_true, decide_eq_true_eq,
     decide_eq_false_iff_not, Int.not_lt] at hc; omega)
 
-/-- equal hashes give equal lanes: the lane index is a function of (hash, lanes) only — by definition of
-the regenerated kernel (no other input) -/
-theorem tie_slot_stable (h1 h2 s : BitVec 64) (h : h1 = h2) :
-    Nv.Gen.C14.normalizeSlotIndex h1 s = Nv.Gen.C14.normalizeSlotIndex h2 s := by rw [h]
-
 end Nv.C14
